@@ -1,6 +1,30 @@
 import Fabio.Driver.Proto
+import Fabio.Driver.RouteJson
+import Fabio.Model.Route
 namespace Fabio.Driver.C05
-open Lean Fabio.Driver
+open Lean Fabio.Driver Fabio.Driver.RouteJson Fabio.Model.Route
 
-def streams : List (String × Handler) := []
+def errName : Err → String
+  | .invalidPrefix => "invalidPrefix" | .invalidTarget => "invalidTarget" | .badURL => "badURL"
+  | .badGlob => "badGlob" | .noMatch => "noMatch" | .invalidCommand => "invalidCommand"
+
+def defsOf (inp : Json) : Except String (List RouteDef) := do
+  let a ← inp.getObjValAs? (Array Json) "defs"
+  a.toList.mapM routeDef
+
+/-- the oracle travels in the input but is recomputed by the harness on replay; the driver reads it from
+the *implementation line* when present there, else from the input -/
+def scriptH : Handler := fun inp impl => do
+  let defs ← defsOf inp
+  let env := envOf ((inp.getObjVal? "oracle").toOption.getD (Json.mkObj []))
+  let m : Json := match newTable env defs with
+    | .error e => Json.mkObj [("error", errName e)]
+    | .ok t => Json.mkObj [("table", tableJson t)]
+  let agree := closeJson m impl
+  let tag := match newTable env defs with
+    | .error e => "err-" ++ errName e
+    | .ok t => if t.isEmpty then "empty" else "table"
+  return ({ model := m, agree, spec := true, nontrivial := tag == "table", tag } : Verdict).toJson
+
+def streams : List (String × Handler) := [("c05.script", scriptH)]
 end Fabio.Driver.C05
